@@ -68,7 +68,12 @@ def scene(c):
     bc = fdtdx.BoundaryConfig.from_uniform_bound(thickness=1, override_types=bt)
     bd, cons = fdtdx.boundary_objects_from_config(bc, vol)
     objs = [vol, *bd.values()]
-    mats = {"lo": fdtdx.Material(permittivity=2.0), "hi": fdtdx.Material(permittivity=5.0)}
+    if c.get("dispersive"):
+        from fdtdx.dispersion import DispersionModel, LorentzPole
+        disp = DispersionModel(poles=(LorentzPole(resonance_frequency=4.0e15, damping=1.0e14, delta_epsilon=1.5),))
+        mats = {"lo": fdtdx.Material(permittivity=2.0), "hi": fdtdx.Material(permittivity=5.0, dispersion=disp)}
+    else:
+        mats = {"lo": fdtdx.Material(permittivity=2.0), "hi": fdtdx.Material(permittivity=5.0)}
     for i, d in enumerate(c["devices"]):
         shape = tuple(hi - lo for lo, hi in d["box"])
         dev = fdtdx.Device(name=f"dev{i}", materials=mats, param_transforms=[], partial_grid_shape=shape,
